@@ -276,6 +276,7 @@ def check_property(prop, tier, configs=None, only=None, keep=False, write_eviden
         # finding's input region excluded (requires !predicate); only if that residual passes is it a KNOWN-FINDING
         residual = []
         new_viol = []
+        n_replayed = 0
         for ob in violations:
             hit = replay.match_known(ob, known)
             if not hit:
@@ -310,7 +311,8 @@ def check_property(prop, tier, configs=None, only=None, keep=False, write_eviden
         for ob in violations + new_viol:
             if getattr(ob, 'known', None) and ob not in new_viol:
                 continue
-            rp = replay.record_and_replay(prop, ob, dbs[ob.cfgs[0]], sc)
+            n_replayed += 1
+            rp = replay.record_and_replay(prop, ob, dbs[ob.cfgs[0]], sc, do_replay=(n_replayed <= MAX_REPLAYS))
             if rp['status'] == 'not-reproduced':
                 undecided.append((ob, 'counterexample did not replay on the real code (model/emitter defect?): ' + rp['path']))
                 continue
@@ -349,6 +351,8 @@ def check_property(prop, tier, configs=None, only=None, keep=False, write_eviden
             print('scratch kept: ' + sc.dir, file=sys.stderr)
     return exit_code
 
+
+MAX_REPLAYS = int(os.environ.get('VERIF_MAX_REPLAYS', '12'))   # further violations of the same run are recorded with their counterexample but not re-executed
 
 PROPS_NA = {'C19': 'compile/link matrix facts are not expressible as function contracts'}
 
